@@ -3,7 +3,7 @@
     Every print method of the Rust code is transcribed as the sequence of things it does, in order:
     a [write!] of fixed text ([CTok] for a keyword or punctuation, [CSp] for a blank inside the format
     string), a [write!] of [self.source(span)] ([CSrc], tagged with the token kind the grammar has at
-    that place), a doc line ([CDoc]), and the calls [self.indent()], [self.newline()], [writeln!],
+    that place), a doc line with its indentation and line feed ([CDoc]), and the calls [self.indent()], [self.newline()], [writeln!],
     [self.inc()], [self.dec()]. The list of commands of a node does not depend on the printer's state;
     the state ([indent], [indented]) lives in the interpreter [layout], which also performs the
     [source(span)] slicing (byte offsets, panics when out of range or inside a character) and produces
@@ -73,7 +73,7 @@ Inductive cmd : Set :=
 | CTok (k : token)               (* fixed text of a keyword or punctuation token *)
 | CSrc (k : token) (sp : span)   (* [self.source(sp)]; [k]: the token kind the grammar has here *)
 | CSp                            (* one blank inside a format string *)
-| CDoc (line : str)              (* ["/// {line}"] *)
+| CDoc (line : str)              (* one round of the loop of [docs]: [indent(); write!("/// {line}"); newline()] *)
 | CIndent                        (* [self.indent()] *)
 | CNewline                       (* [self.newline()] *)
 | CRawNl                         (* the line feed of a [writeln!] that is not followed by [newline()] bookkeeping *)
@@ -101,7 +101,7 @@ Fixpoint comma_sep {A} (f : A -> list cmd) (first : bool) (l : list A) : list cm
 
 (** [docs]: every line of every comment, trimmed. *)
 Definition p_docs (fx : fixes) (ds : list doc) : list cmd :=
-  flat_map (fun d => flat_map (fun l => [CIndent; CDoc l; CNewline]) (doc_lines_of fx (fst d))) ds.
+  flat_map (fun d => map CDoc (doc_lines_of fx (fst d))) ds.
 
 (* ------------------------------------------------------------------ types *)
 
@@ -410,11 +410,11 @@ Definition slice (src : str) (sp : span) : option str :=
 Inductive piece : Set :=
 | PcTok (k : token) (text : str)   (* a token of the output *)
 | PcWs (s : str)                   (* blanks, line feeds *)
-| PcDoc (line : str).              (* the comment [/// line] *)
+| PcDoc (line : str).              (* the comment [/// line] and the line feed that ends it *)
 
 Definition doc_prefix : str := L"/// ".
 Definition piece_text (p : piece) : str :=
-  match p with PcTok _ t => t | PcWs s => s | PcDoc l => doc_prefix ++ l end.
+  match p with PcTok _ t => t | PcWs s => s | PcDoc l => doc_prefix ++ l ++ [c_nl] end.
 Definition text_of (ps : list piece) : str := flat_map piece_text ps.
 
 (** [space.unwrap_or("    ")], with [space = None] as everywhere in the repository. *)
@@ -436,7 +436,8 @@ Fixpoint layout (src : str) (ind : nat) (indented : bool) (cs : list cmd) : opti
                      | None => None
                      end
       | CSp => cons (PcWs [32]) (layout src ind indented r)
-      | CDoc l => cons (PcDoc l) (layout src ind indented r)
+      | CDoc l => if indented then cons (PcDoc l) (layout src ind false r)
+                  else cons (PcWs (indent_text ind)) (cons (PcDoc l) (layout src ind false r))
       | CIndent => if indented then layout src ind indented r
                    else cons (PcWs (indent_text ind)) (layout src ind true r)
       | CNewline => cons (PcWs [c_nl]) (layout src ind false r)
